@@ -59,7 +59,15 @@ pub ghost struct BW {
     pub stages: Seq<Stage>,          // every process started so far, in order
     pub inheritable: Set<int>,       // pipe ends the library created with make_pipe() that are open in the parent and NOT close-on-exec
     pub waits: nat,                  // blocking waits so far
+    // pipe ends the LIBRARY still holds on behalf of an unfinished exchange: the read end of the shared stderr pipe made by
+    // make_pipe(), and every end moved into a Communicator.  A child may be blocked on any of them (waiting for end-of-file on its
+    // stdin, or writing into a pipe nobody reads), so nothing may be waited for while this set is non-empty (C12, C14).
+    pub parked: Set<int>,
 }
+pub open spec fn no_parked(s: BW) -> bool { forall|o: int| !s.parked.contains(o) }
+// every parked end is the one held in `f`
+pub open spec fn parked_within(s: BW, f: Option<File>) -> bool { forall|o: int| #[trigger] s.parked.contains(o) ==> f.is_some() && o == f.unwrap().obj@ }
+pub open spec fn opt_obj(f: Option<File>) -> Set<int> { match f { Some(x) => Set::<int>::empty().insert(x.obj@), None => Set::<int>::empty() } }
 pub tracked struct World { pub ghost s: BW }
 
 pub fn drop<T>(x: T) {}
